@@ -138,12 +138,22 @@ func c04Template(c *Ctx) {
 	for i, cc := range creates {
 		pre := fmt.Sprintf("%s CreateCertificate#%d ", hname, i)
 		pos := p.Pos(cc.Pos())
-		tmpl, ok := core.Strip(cc.Call.Args[1]).(*ssa.Alloc)
-		if !ok {
-			r.Unk("R-C04.1", pre+"template", pos, "template is not a local literal")
+		var tmpl *ssa.Alloc
+		var tsubst map[ssa.Value]ssa.Value
+		if vals, subst, h := helperResult(cc.Call.Args[1]); h != nil && len(vals) == 1 {
+			r.Fn(core.FuncName(h))
+			core.WithSubst(subst, func() { tmpl, _ = core.Strip(vals[0]).(*ssa.Alloc) })
+			tsubst = subst
+		} else {
+			tmpl, _ = core.Strip(cc.Call.Args[1]).(*ssa.Alloc)
+		}
+		if tmpl == nil {
+			r.Unk("R-C04.1", pre+"template", pos, "template is not a local literal (nor one built by a single-return helper)")
 			continue
 		}
 		ts := storesOf(tmpl)
+		// values stored into the template are read in the frame that built it
+		inT := func(f func()) { core.WithSubst(tsubst, f) }
 		allowed := map[string]bool{"AuthorityKeyId": true, "SubjectKeyId": true, "ExtKeyUsage": true, "Subject.CommonName": true, "DNSNames": true, "KeyUsage": true, "SerialNumber": true, "NotBefore": true, "NotAfter": true}
 		var extra []string
 		for f, sts := range ts {
@@ -180,16 +190,28 @@ func c04Template(c *Ctx) {
 			k, isK := core.ConstInt(s[0].Val)
 			r.Check(isK && k&32 == 0, "R-C04.1", pre+"KeyUsage", pos, "no certificate-signing usage", "node leaf may sign certificates")
 		}
-		cn := len(ts["Subject.CommonName"]) == 1 && recField(ts["Subject.CommonName"][0].Val, "Id")
+		cn := false
+		inT(func() { cn = len(ts["Subject.CommonName"]) == 1 && recField(ts["Subject.CommonName"][0].Val, "Id") })
 		r.Check(cn, "R-C04.1", pre+"CommonName", pos, "CommonName = record ID", "CommonName is not the node's key ID")
 		dns := false
-		for _, s := range ts["DNSNames"] {
-			if elems, ok := sliceLiteralElems(s.Val); ok && len(elems) >= 1 && recField(elems[0], "Id") {
-				dns = true
+		inT(func() {
+			for _, s := range ts["DNSNames"] {
+				if elems, ok := sliceLiteralElems(s.Val); ok && len(elems) >= 1 && recField(elems[0], "Id") {
+					dns = true
+				}
+				// append([]string{id}, more...) built in one expression
+				if base, _, ok := appendParts(s.Val); ok {
+					if elems, ok := sliceLiteralElems(base); ok && len(elems) >= 1 && recField(elems[0], "Id") {
+						dns = true
+					}
+				}
 			}
-		}
+		})
 		r.Check(dns, "R-C04.1", pre+"DNSNames[0]", pos, "first DNS name = record ID", "first DNS name is not the node's key ID")
-		ski := len(ts["SubjectKeyId"]) == 1 && recField(ts["SubjectKeyId"][0].Val, "CertificatePublicKeyPkix")
+		ski := false
+		inT(func() {
+			ski = len(ts["SubjectKeyId"]) == 1 && recField(ts["SubjectKeyId"][0].Val, "CertificatePublicKeyPkix")
+		})
 		r.Check(ski, "R-C04.1", pre+"SubjectKeyId", pos, "SubjectKeyId = the node's certificate key", "SubjectKeyId is not the node's certificate key (the listener pins this value)")
 		// parent / signer from one SigningParams() of the loop's root
 		parent := core.Strip(cc.Call.Args[2])
@@ -209,8 +231,10 @@ func c04Template(c *Ctx) {
 			for _, f := range []string{"NotBefore", "NotAfter"} {
 				okT := len(ts[f]) == 1
 				if okT {
-					vp := core.PathOf(ts[f][0].Val)
-					okT = vp.Root == parent && vp.HasFields(f)
+					inT(func() {
+						vp := core.PathOf(ts[f][0].Val)
+						okT = vp.Root == parent && vp.HasFields(f)
+					})
 				}
 				r.Check(okT, "R-C04.1", pre+f, pos, f+" = issuing root certificate's "+f, "leaf "+f+" is not the issuing root's (leaf could outlive its root)")
 			}
